@@ -105,6 +105,25 @@ func c20Randomness(c *eng.Ctx) {
 	// (b) makePolynomial
 	if f := c.Fn("shamir.makePolynomial"); f != nil && len(f.Params) == 2 {
 		intercept, degree := f.Params[0], f.Params[1]
+		// the coefficient buffer: a read of a `coefficients` field, or the fresh slice that is
+		// stored into one (a local alias of the polynomial's buffer)
+		isCoeff := func(v ssa.Value) bool {
+			if fa, ok := c20FieldLoad(v); ok && eng.FieldVar(fa).Name() == "coefficients" {
+				return true
+			}
+			mk, ok := c20Strip(v).(*ssa.MakeSlice)
+			if !ok || mk.Referrers() == nil {
+				return false
+			}
+			for _, r := range *mk.Referrers() {
+				if st, ok := r.(*ssa.Store); ok && st.Val == ssa.Value(mk) {
+					if fa, ok := st.Addr.(*ssa.FieldAddr); ok && eng.FieldVar(fa).Name() == "coefficients" {
+						return true
+					}
+				}
+			}
+			return false
+		}
 		reads := eng.Calls(f, `^crypto/rand\.Read$`)
 		if c.Floor(f, "crypto/rand.Read", len(reads), 1) {
 			rd := reads[0]
@@ -116,12 +135,8 @@ func c20Randomness(c *eng.Ctx) {
 			c.Clause("R5", "C20.1b")
 			site := "random fill covers coefficients[1:]"
 			sl, _ := rd.Common().Args[0].(*ssa.Slice)
-			var coeffAddr *ssa.FieldAddr
-			if sl != nil {
-				coeffAddr, _ = c20FieldLoad(sl.X)
-			}
 			switch {
-			case sl == nil || coeffAddr == nil || eng.FieldVar(coeffAddr).Name() != "coefficients":
+			case sl == nil || !isCoeff(sl.X):
 				c.Violation(f, site, rd.Pos(), "crypto/rand.Read does not fill a slice of the polynomial's coefficients: "+eng.ExprDeep(rd.Common().Args[0]), nil)
 			case !c20ConstInt(sl.Low, 1) || sl.High != nil:
 				c.Violation(f, site, rd.Pos(), "crypto/rand.Read fills "+eng.ExprDeep(sl)+", not coefficients[1:]: some non-constant coefficient is not random (or the intercept is overwritten)", nil)
@@ -153,10 +168,8 @@ func c20Randomness(c *eng.Ctx) {
 						return false
 					}
 					seen[v] = true
-					if ia, ok := v.(*ssa.IndexAddr); ok {
-						if fa, ok := c20FieldLoad(ia.X); ok && eng.FieldVar(fa).Name() == "coefficients" {
-							return true
-						}
+					if ia, ok := v.(*ssa.IndexAddr); ok && isCoeff(ia.X) {
+						return true
 					}
 					if _, ok := v.(*ssa.Call); ok {
 						return false
@@ -201,7 +214,7 @@ func c20Randomness(c *eng.Ctx) {
 				if !ok || !c20ConstInt(ia.Index, 0) {
 					continue
 				}
-				if fa, ok := c20FieldLoad(ia.X); ok && eng.FieldVar(fa).Name() == "coefficients" && c20Strip(s.Val) == ssa.Value(intercept) {
+				if isCoeff(ia.X) && c20Strip(s.Val) == ssa.Value(intercept) {
 					ist = append(ist, st)
 				}
 			}
@@ -214,7 +227,7 @@ func c20Randomness(c *eng.Ctx) {
 			var later []ssa.Instruction
 			for _, st := range eng.Instrs(f, func(in ssa.Instruction) bool { _, ok := in.(*ssa.Store); return ok }) {
 				if ia, ok := st.(*ssa.Store).Addr.(*ssa.IndexAddr); ok {
-					if fa, ok := c20FieldLoad(ia.X); ok && eng.FieldVar(fa).Name() == "coefficients" && !c20ConstInt(ia.Index, 0) {
+					if isCoeff(ia.X) && !c20ConstInt(ia.Index, 0) {
 						later = append(later, st)
 					}
 				}
